@@ -219,6 +219,9 @@ Acl::Node *build(const std::string &name, const char *type, const std::vector<Va
 
 void resetAcls()
 {
+    // squid.conf default "configuration_includes_quoted_values off" (what default_all() sets before parsing)
+    ConfigParser::RecognizeQuotedValues = false;
+    ConfigParser::StrictMode = false;
     // what Ip::ProbeTransport() finds at start-up on a dual-stack host (main() is not part of the harness);
     // with IPv6 off, IPv6 parameters are dropped with a warning by design
     Ip::EnableIpv6 = IPV6_SPECIAL_V4MAPPING;
@@ -539,7 +542,12 @@ vp::Verdict checkE(const ECase &c, vp::Ctx &ctx)
     const Universe &U = universes()[c.u];
     const int nvals = static_cast<int>(U.values.size());
     if (c.i < 0 || c.i >= nvals || c.j < 0 || c.j > nvals) { ctx.excluded("malformed case"); return vp::pass(); }
-    if (seen.insert((c.u * 1000L + c.i) * 1000 + c.j).second && seen.size() == static_cast<size_t>(myChunks())) ctx.label("shard-enumeration-complete");
+    if (!seen.insert((c.u * 1000L + c.i) * 1000 + c.j).second) {
+        // the cyclic enumeration came round again: nothing new to learn in this process
+        ctx.excluded("chunk already enumerated by this process");
+        return vp::pass();
+    }
+    if (seen.size() == static_cast<size_t>(myChunks())) ctx.label("shard-enumeration-complete");
     ctx.nontrivial();
     ctx.label(std::string("universe-") + std::to_string(c.u));
     auto one = [&](const std::vector<Value> &list, const int layout) -> vp::Verdict {
